@@ -1,6 +1,7 @@
 import Driver.Loop
 import IrohModel.Common.Hex
 import IrohModel.C27.Model
+import IrohModel.C27.ProducerModel
 open IrohModel IrohModel.C27
 
 /-! Line-protocol driver for C27 (trusted test plumbing: parsing and printing only; all the
@@ -89,9 +90,34 @@ def og : Option (Nat × Nat) → String
 
 def b01 (b : Bool) : String := if b then "1" else "0"
 
+/-- `Q <ops>`: the end-to-end QAD scenario (`R` full report, `r` incremental report, `b` rebind). -/
+def showSock : Option (Nat × Nat) → String
+  | none => "none"
+  | some (ip, _) => toString ip
+
+def runQad (ops : List Char) : String :=
+  let (_, outs) := ops.foldl (fun (acc : QadWorld × List String) op =>
+    let w := acc.1
+    if op = 'b' then
+      let (w', p) := w.rebind
+      let tok := match p with
+        | some (.qad4 _ _ (.v4 ip _)) => s!"p{ip}"
+        | some _ => "px"
+        | none => "p-"
+      (w', acc.2 ++ [tok])
+    else
+      let (w', r) := w.report (op = 'R')
+      (w', acc.2 ++ [s!"g{showSock r.g4}:{ob r.mv4}"])) (({} : QadWorld), [])
+  " ".intercalate outs
+
 def handleLine (payload : String) : String :=
   let p := payload.trimAscii.toString
-  if p.startsWith "R " then
+  if p.startsWith "Q " then
+    let ops := (p.drop 2).toString.trimAscii.toString.toList
+    if ops.isEmpty || ops.length > 12 || !ops.all (fun c => c = 'r' || c = 'R' || c = 'b') then
+      "bad-input"
+    else runQad ops
+  else if p.startsWith "R " then
     match parseSeq true (p.drop 2).toString with
     | none => "bad-input"
     | some items =>
